@@ -282,7 +282,26 @@ pub fn mutate_source_text(src: &str, other: &str, t: &mut Tape) -> (String, Stri
     let mut what = vec![];
     let n = 1 + t.pick(4);
     for _ in 0..n {
-        match t.pick(12) {
+        match t.pick(13) {
+            11 => {
+                // a backslash escape in front of an ordinary, a structural or a multi-byte
+                // character, preferably inside braces / brackets / quotes / tags
+                let spots: Vec<usize> = chars
+                    .iter()
+                    .enumerate()
+                    .filter(|(_, c)| matches!(c, '{' | '|' | '[' | '"' | '#' | ':'))
+                    .map(|(i, _)| i + 1)
+                    .collect();
+                let i = if !spots.is_empty() && t.chance(2, 3) {
+                    spots[t.pick(spots.len())]
+                } else {
+                    t.pick(chars.len() + 1)
+                };
+                let c = ['é', '日', '😀', '{', '|', '}', '#', ' ', 'n', '\\', '\u{301}'][t.pick(11)];
+                chars.insert(i, c);
+                chars.insert(i, '\\');
+                what.push("escape");
+            }
             0 => {
                 // byte flip (through lossy utf-8)
                 let mut b: Vec<u8> = chars.iter().collect::<String>().into_bytes();
